@@ -129,8 +129,14 @@ def path_condition(fn, node, inline=True, early=False):
                 if st.get("k") == "IfStmt":
                     if _always_leaves(st.get("then")) and not _always_leaves(st.get("else")):
                         fs.append(("not", formula(st["cond"], sal)))
+                        lc = _leave_condition(st.get("else"), sal)        # `if (a) continue; else if (b) continue;`
+                        if lc != ("const", False):
+                            fs.append(("not", lc))
                     elif st.get("else") is not None and _always_leaves(st.get("else")) and not _always_leaves(st.get("then")):
                         fs.append(formula(st["cond"], sal))
+                        lc = _leave_condition(st.get("then"), sal)
+                        if lc != ("const", False):
+                            fs.append(("not", lc))
                     else:
                         # a leave nested deeper: `if (a) { ...; if (b) continue; }` lets the statement be reached only under !(a && b)
                         lc = _leave_condition(st, sal)
